@@ -16,11 +16,15 @@ pub struct Unit {
     pub len: usize,
 }
 
-const CRATE: &str = "/verif/derive_family";
-const BIN: &str = "/verif/target/derive_family/release/derive_family";
+fn crate_dir() -> String {
+    format!("{}/derive_family", root())
+}
+fn bin() -> String {
+    format!("{}/target/derive_family/release/derive_family", root())
+}
 
 fn run_bin(args: &[String]) -> Option<String> {
-    let mut c = std::process::Command::new(BIN);
+    let mut c = std::process::Command::new(bin());
     c.args(args);
     scrub_env(&mut c);
     let out = c.stdin(std::process::Stdio::null()).stderr(std::process::Stdio::null()).output().ok()?;
@@ -60,12 +64,12 @@ impl Check for C17 {
     }
     fn prepare(&self, tier: Tier) -> Result<(), String> {
         let seed = std::env::var("VERIF_SEED").ok().and_then(|s| s.parse::<u64>().ok()).unwrap_or(0);
-        let gen = std::process::Command::new("python3").arg("/verif/tools/gen_derive.py").arg(tier.name()).arg(seed.to_string()).arg(format!("{}/src/generated.rs", CRATE)).output().map_err(|e| e.to_string())?;
+        let gen = std::process::Command::new("python3").arg(format!("{}/tools/gen_derive.py", root())).arg(tier.name()).arg(seed.to_string()).arg(format!("{}/src/generated.rs", crate_dir())).output().map_err(|e| e.to_string())?;
         if !gen.status.success() {
             return Err(format!("generator failed: {}", String::from_utf8_lossy(&gen.stderr)));
         }
-        let _ = std::fs::copy("/repo/Cargo.lock", format!("{}/Cargo.lock", CRATE));
-        let b = std::process::Command::new("cargo").arg("build").arg("--release").arg("--offline").current_dir(CRATE).env("CARGO_NET_OFFLINE", "true").output().map_err(|e| e.to_string())?;
+        let _ = std::fs::copy("/repo/Cargo.lock", format!("{}/Cargo.lock", crate_dir()));
+        let b = std::process::Command::new("cargo").arg("build").arg("--release").arg("--offline").arg("--target-dir").arg(format!("{}/target/derive_family", root())).current_dir(crate_dir()).env("CARGO_NET_OFFLINE", "true").output().map_err(|e| e.to_string())?;
         if !b.status.success() {
             let err = String::from_utf8_lossy(&b.stderr);
             let tail: String = err.lines().filter(|l| l.starts_with("error")).take(10).collect::<Vec<_>>().join("\n");
@@ -96,7 +100,7 @@ impl Check for C17 {
                     ctx.count_n("accepted-vectors", s["accepted"].as_u64().unwrap_or(0));
                     ctx.count_n("help-requests", s["help_requests"].as_u64().unwrap_or(0));
                     if u.shard == 0 {
-                        ctx.sample(|| json!({"types_in_family": s["total_types"], "vector_length": u.len, "see": "/verif/derive_family/src/generated.rs (derive type T<i>, manual parser m<i>)"}));
+                        ctx.sample(|| json!({"types_in_family": s["total_types"], "vector_length": u.len, "see": "derive_family/src/generated.rs (derive type T<i>, manual parser m<i>)"}));
                     }
                 }
             }
@@ -108,7 +112,7 @@ impl Check for C17 {
         let argv = case["argv"].clone();
         let len = argv.as_array().map_or(1, |a| a.len()).max(1);
         ctx.s.evaluations += 1;
-        if !std::path::Path::new(BIN).exists() {
+        if !std::path::Path::new(&bin()).exists() {
             let _ = self.prepare(ctx.tier);
         }
         if let Some(out) = run_bin(&["0".into(), "1".into(), len.to_string(), id.to_string()]) {
